@@ -184,9 +184,75 @@ func c07Hook(point int) {
 	}
 }
 
+// c07BigTable: an interned field whose table already holds thousands of values, then decoded
+// concurrently (free-running in every lane): one goroutine adds unseen values while the others
+// decode known ones and check every result.
+func c07BigTable(c *core.Ctx, idx int) {
+	rec := c.Rec
+	r := c.Rand(idx)
+	p := instNew(instCfgs()[idx%4])
+	enc := func(s string) []byte {
+		v := c19Intern{A: s, I: 1}
+		b, _ := p.Marshal(nil, &v)
+		return b
+	}
+	n := 4200 + r.IntN(300)
+	known := make([]string, n)
+	for i := range known {
+		known[i] = fmt.Sprintf("k-%d-%d", idx, i)
+		var out c19Intern
+		if err := p.Unmarshal(enc(known[i]), &out); err != nil || out.A != known[i] {
+			rec.Violation("concurrent-result", fmt.Sprintf("prefill of the intern table: %v %q", err, out.A), nil)
+			return
+		}
+	}
+	var mu sync.Mutex
+	var fail string
+	var wg sync.WaitGroup
+	start := make(chan struct{})
+	for w := 0; w < 8; w++ {
+		wg.Add(1)
+		go func(w int) {
+			defer wg.Done()
+			<-start
+			pn := core.Guard(func() {
+				for i := 0; i < 400; i++ {
+					want := known[(i*7+w*131)%n]
+					if w == 0 {
+						want = fmt.Sprintf("new-%d-%d", idx, i)
+					}
+					var out c19Intern
+					if err := p.Unmarshal(enc(want), &out); err != nil || out.A != want {
+						mu.Lock()
+						fail = fmt.Sprintf("goroutine %d decoded %q (err %v), alone it decodes %q", w, out.A, err, want)
+						mu.Unlock()
+						return
+					}
+				}
+			})
+			if pn != "" {
+				mu.Lock()
+				fail = "panic: " + pn
+				mu.Unlock()
+			}
+		}(w)
+	}
+	close(start)
+	wg.Wait()
+	rec.Eval(8 * 400)
+	rec.Count("big_intern_table_trials", 1)
+	if fail != "" {
+		rec.Violation("concurrent-result", fmt.Sprintf("8 goroutines on an interned field whose table holds %d values: %s", n, fail), map[string]any{"table_size": n})
+	}
+}
+
 func c07Case(c *core.Ctx, idx int) {
 	if c.Lane == "systematic" {
 		c07Systematic(c, idx)
+		return
+	}
+	if idx%397 == 5 {
+		c07BigTable(c, idx)
 		return
 	}
 	rec := c.Rec
